@@ -299,7 +299,7 @@ def run(ctx):
     meta = []
     # 2. spec -> code: TLC-generated behaviours replayed into the real objects
     depth = 24
-    nbeh = 150 if quick else 600
+    nbeh = 150 if quick else 300
     gcfg = os.path.join(ctx.work, 'Gen_SymTab_run.cfg')
     with open(gcfg, 'w') as fh:
         fh.write(f'SPECIFICATION GSpec\nCONSTANT GenDepth = {depth}\nCHECK_DEADLOCK FALSE\n')
